@@ -59,6 +59,9 @@ struct BlockIndex : public AddonShell {
 #include "slices/getHeight.inc"
 #include "slices/setHeight.inc"
 #include "slices/canBeATip.inc"
+#include "slices/getPrev.inc"
+#include "slices/getAncestor.inc"
+#include "slices/getAncestorBlocksBehind.inc"
 };
 #include "slices/isValidInvalidationReason.inc"
 }  // namespace altintegration
